@@ -1,5 +1,7 @@
 """C02 - the GLR forest contains every derivation of the input."""
 
+import time
+
 from pgverif import cfg, findings, glrobs, pgx
 from pgverif.mon.gss import GssMonitor
 from pgverif.props import glrwork
@@ -38,6 +40,7 @@ def required(tier):
         "grammar.tag.right-nulled": 3,
         "grammar.overlap": 3,
         "lex.tree_sets_compared": 200,
+        "long_inputs.ge12": 60,
     }
 
 
@@ -117,11 +120,25 @@ def one_grammar(ctx, mon, name, g, alphabet, maxlen):
         pkeys = pgx.prod_keys(pg)
         for w in glrwork.inputs_for(g, alphabet, maxlen, ctx.rng, extra_long=3):
             check_input(ctx, mon, g, pg, parser, pkeys, dict(case0, input=w), w)
+        # long sentences: links whose roots lie in many frontiers (two-digit ordinals)
+        mon.reduce_budget = 3000000
+        try:
+            for w in glrwork.long_inputs(g, alphabet, ctx.rng, targets=(12, 16, 22)):
+                ctx.count("long_inputs")
+                if len(w) >= 12:
+                    ctx.count("long_inputs.ge12")
+                t0 = time.time()
+                check_input(ctx, mon, g, pg, parser, pkeys, dict(case0, input=w), w, long=True)
+                if mon.c["reduce"] > 30000 or time.time() - t0 > 2 or not ctx.more():
+                    ctx.count("long_inputs.growth_stopped")
+                    break
+        finally:
+            mon.reduce_budget = 400000
         if not ctx.more():
             break
 
 
-def check_input(ctx, mon, g, pg, parser, pkeys, case, inp):
+def check_input(ctx, mon, g, pg, parser, pkeys, case, inp, long=False):
     chart = cfg.Chart(g, inp, skip=cfg.skip_none)
     if not chart.is_sentence():
         return
@@ -136,6 +153,9 @@ def check_input(ctx, mon, g, pg, parser, pkeys, case, inp):
         return
     except pgx.BudgetExceeded as e:
         ctx.case(key, True)
+        if long:
+            ctx.count("long_inputs.budget_not_judged")
+            return
         ctx.violation("glr-diverges", case, "GLR parse exceeded the logical reduce budget: %s" % e)
         return
     nontrivial = refcount >= 2 or bool(g.nullable())
@@ -213,6 +233,9 @@ def replay(case, ctx):
                 if ref_forms - set(got_forms):
                     ctx.violation("tree-missing", case, "%d trees missing" % len(ref_forms - set(got_forms)))
             return
-        check_input(ctx, mon, g, pg, parser, pgx.prod_keys(pg), case, case["input"])
+        long = len(case["input"]) >= 8
+        if long:
+            mon.reduce_budget = 3000000
+        check_input(ctx, mon, g, pg, parser, pgx.prod_keys(pg), case, case["input"], long=long)
     finally:
         mon.uninstall()
